@@ -365,20 +365,50 @@ Definition edge_gradient_opt (A : bmat) (total : bool) : option zmat :=
   if total then Some (edge_gradient_of A)
   else match upper_edges A with [] => None | _ => Some (edge_gradient_of A) end.
 
-Definition run_gquery (A : bmat) (q : gquery) : result :=
+(* None = the code raises / the matrix is not a well-formed square one *)
+Definition gq_mat (A : bmat) (q : gquery) : option zmat :=
   if wf_bmat A && squareb A then
     match q with
-    | GLap => Some (res_of_z (laplacian_of A))
-    | GGrad tot => option_map res_of_z (edge_gradient_opt A tot)
-    | GE2V sl st => Some (res_of_z (e2v_of A sl st))
-    | GHop n sl zd => Some (res_of_z (hop_of A n sl zd))
+    | GLap => Some (laplacian_of A)
+    | GGrad tot => edge_gradient_opt A tot
+    | GE2V sl st => Some (e2v_of A sl st)
+    | GHop n sl zd => Some (hop_of A n sl zd)
     end
   else None.
 
-Definition check_graph (A : bmat) (qs : list (gquery * result)) : list nat :=
-  map fst (filter (fun kq => negb (result_eqb (run_gquery A (fst (snd kq))) (snd (snd kq))))
-                  (combine (seq 0 (length qs)) qs)).
+Definition run_gquery (A : bmat) (q : gquery) : result := option_map res_of_z (gq_mat A q).
 
-(* dense literal rows are written with these two names by the harness *)
-Definition T := true.
-Definition F := false.
+(* comparison form of the stage-wise check: shape + the dense rows (lists of
+   tens of thousands of COO triples overflow coqc's parser stack; the dense
+   rows carry the same information) *)
+Definition dresult := option (Z * Z * list (list Z)).
+Definition dres_of_z (M : zmat) : Z * Z * list (list Z) :=
+  (Z.of_nat (znr M), Z.of_nat (znc M), zdat M).
+Definition run_gquery_dense (A : bmat) (q : gquery) : dresult := option_map dres_of_z (gq_mat A q).
+Definition dresult_eqb (a b : dresult) : bool :=
+  match a, b with
+  | None, None => true
+  | Some (r, c, l), Some (r', c', l') =>
+      Z.eqb r r' && Z.eqb c c' && list_eqb (list_eqb Z.eqb) l l'
+  | _, _ => false
+  end.
+
+(* the harness hands matrices over in row-sparse form (dense literals of this
+   size cost tens of seconds of parsing): the adjacency as the list of column
+   indices of every row, the implementation's answer as (column, value) pairs
+   of every row; both are expanded to the dense form here *)
+Definition zseq (n : nat) : list Z := map Z.of_nat (seq 0 n).
+Definition bmat_of_rows (n : nat) (rows : list (list Z)) : bmat :=
+  mkb n n (map (fun cols => map (fun j => existsb (Z.eqb j) cols) (zseq n)) rows).
+Definition zlookup (j : Z) (row : list (Z * Z)) : Z :=
+  match find (fun p => Z.eqb (fst p) j) row with Some p => snd p | None => 0%Z end.
+Definition sresult := option (Z * Z * list (list (Z * Z))).
+Definition densify (e : Z * Z * list (list (Z * Z))) : Z * Z * list (list Z) :=
+  match e with
+  | (r, c, rows) => (r, c, map (fun row => map (fun j => zlookup j row) (zseq (Z.to_nat c))) rows)
+  end.
+
+Definition check_graph (A : bmat) (qs : list (gquery * sresult)) : list nat :=
+  map fst (filter (fun kq => negb (dresult_eqb (run_gquery_dense A (fst (snd kq)))
+                                               (option_map densify (snd (snd kq)))))
+                  (combine (seq 0 (length qs)) qs)).
